@@ -7,6 +7,14 @@
 (*   ["lp", i]  pool := e_i (0 for i = -1); one LFSR fold of time = c      *)
 (*   ["lt", j]  pool := p0;  one LFSR fold of time = e_j (0 for j = -1)    *)
 (*   ["st", i]  pool := e_i (0 for i = -1); one stir step                  *)
+(*   ["lv", i], ["tv", j]  as "lp", "lt" but through the variable-round    *)
+(*              path that entropy collection itself uses (the two loop     *)
+(*              count readings are fixed)                                   *)
+(*   ["nx", i]  pool := e_i; one whole collection (next_u64: priming       *)
+(*              measurement, `rounds` accepted measurements with stuck ones *)
+(*              in between, stir) over the same readings every time: "two  *)
+(*              different pool contents can never be merged into the same  *)
+(*              output"                                                     *)
 (*   ["aff", kind, k, "a"|"b"|"ab"]  random triples a, b, a xor b          *)
 (* Nothing here compares the code with Jitter.tla (that is C12's job): the *)
 (* decision is about the code's own maps.  For each map TLC checks that it *)
@@ -26,13 +34,13 @@ Ev == Rec[l]
 Has(r, f) == f \in DOMAIN r
 
 Next == /\ l <= Len(Rec) /\ l' = l + 1
-        /\ IF Has(Ev, "tag") /\ Has(Ev, "obs") /\ Ev.e \in {"timer_stats", "stir"} /\ ~Has(Ev, "panic")
+        /\ IF Has(Ev, "tag") /\ Has(Ev, "obs") /\ Ev.e \in {"timer_stats", "stir", "next_u64"} /\ ~Has(Ev, "panic")
            THEN imgs' = (Ev.tag :> Ev.obs.pool) @@ imgs ELSE UNCHANGED imgs
 Init == l = 1 /\ imgs = <<>>
 Spec == Init /\ [][Next]_vars
 Done == l = Len(Rec) + 1
 
-Kinds == {"lp", "lt", "st"}
+Kinds == {"lp", "lt", "st", "lv", "tv", "nx"}
 Complete(kind) == \A i \in -1..63 : <<kind, i>> \in DOMAIN imgs
 Col(kind, i) == VXor(imgs[<<kind, i>>], imgs[<<kind, -1>>])          \* linear part: f(e_i) xor f(0)
 AffTags(kind) == {t \in DOMAIN imgs : Len(t) = 4 /\ t[1] = "aff" /\ t[2] = kind /\ t[4] = "a"}
@@ -62,7 +70,7 @@ Result(kind) == IF ~Complete(kind) THEN <<kind, "incomplete", 0, VZero(4), 0>>
                 ELSE LET e == Elim(kind) IN <<kind, "affine", e[1], e[2], Cardinality(AffTags(kind))>>
 Bijective ==
   Done => LET r == [k \in Kinds |-> Result(k)] IN
-          /\ PrintT(<<"RESULT", r["lp"], r["lt"], r["st"], SpecRotRank>>)
+          /\ PrintT(<<"RESULT", r["lp"], r["lt"], r["st"], r["lv"], r["tv"], r["nx"], SpecRotRank>>)
           /\ \A k \in Kinds : r[k][2] = "affine" => r[k][3] = 64
           /\ SpecRotRank = 64
 =============================================================================
